@@ -1454,6 +1454,10 @@ class Executor:
 
     def cut_loop(self, s, fr, kind, first_cond=None):
         st = self.st
+        if self.phase != "discover" and not getattr(self.shared, "discovered", True):
+            from .engine import NeedDiscovery
+
+            raise NeedDiscovery()
         ordinal = fr.loop_ord.get(id(s), -1)
         key = (fr.qualname, ordinal)
         spec: LoopSpec = self.shared.loop_specs.get(key) or LoopSpec()
